@@ -254,10 +254,10 @@ def run_property(prop, rule_fns, tier="quick", explanation="", assumptions=(), f
         json.dump(ev, fo, indent=1, default=str)
     print("-- %s: %d rules, %d instances, %d violation(s), %d known finding(s), %d analysis error(s), %.2fs" % (
         prop, len(rules), n_inst, len(violations), len(known_hits), len(errors), wall))
+    if violations:
+        return 1        # positive evidence from a rule that could analyse its part stands, whatever another rule could not analyse
     if errors:
         return 2
-    if violations:
-        return 1
     if thorough_info is not None and thorough_info.get("failed"):
         for m in thorough_info["failed"]:
             print("ANALYSIS-ERROR property=%s self-test: %s" % (prop, m))
